@@ -20,7 +20,22 @@ def gen(tier, rng):
     from tools import mboxgen
     # display names in structured fields (phrase / quoted-string / encoded-word readers of the C17 driver)
     names = mboxgen.mbox_cases(rng, {"quick": 300, "search": 1000, "thorough": 6000}[tier])
-    return names + hdrgen.hval_cases(rng, n, op="hvalrt") + hdrgen.cdisp_cases(rng, {"quick": 200, "search": 1000, "thorough": 5000}[tier])
+    # the typed text headers through their own display(): what the reader recovers is the text, also for short printable
+    # texts and for texts that look like encoded-words
+    sels = ["subject", "comments", "keywords", "in-reply-to", "references", "message-id", "user-agent", "content-id", "content-location"]
+    typed = []
+    looks = ["=?utf-8?b?aGk=?=", "=?utf-8?q?x?=", "=?UTF-8?B?w6k=?=", "a =?utf-8?b?aGk=?= b", "=?utf-8?b?aGk=?= =?utf-8?b?aGk=?=", "=?x?q?=41?=", "plain", "two words",
+             "é", "é \t é", "é  é", "a\tb", "=?", "?=", "=?utf-8?b??=", "x=?utf-8?b?aGk=?=", "=?utf-8?b?aGk=?=x"]
+    for sel in sels:
+        for t in looks:
+            typed.append(f"typed\ttext\t{hexs(t)}\t{sel}")
+    for _ in range({"quick": 300, "search": 1000, "thorough": 6000}[tier]):
+        t = hdrgen.text(rng, 6)
+        if rng.random() < 0.3:
+            t = t[:58]
+        if t:
+            typed.append(f"typed\ttext\t{hexs(t)}\t{rng.choice(sels)}")
+    return names + typed + hdrgen.hval_cases(rng, n, op="hvalrt") + hdrgen.cdisp_cases(rng, {"quick": 200, "search": 1000, "thorough": 5000}[tier])
 
 
 nontrivial = c02.nontrivial
@@ -33,6 +48,9 @@ def shrinkable(case):
 def distribution(cases):
     d = {"needs_encoding": 0, "plain": 0, "with_double_space": 0, "with_encoded_word_lookalike": 0}
     for c in cases:
+        if c.startswith("typed\ttext"):
+            d["typed_text_header"] = d.get("typed_text_header", 0) + 1
+            continue
         if c.startswith("typed"):
             d["content_disposition"] = d.get("content_disposition", 0) + 1
             continue
